@@ -427,7 +427,9 @@ class Gen:
         self.ops.append(op)
 
     def precaution(self):
-        if os.environ.get("C07_NO_PRECAUTION") == "1":   # experiment: a tree in which D14/D16/D38 are repaired
+        """D14 / D16 / D38 are repaired in /repo: no edit is preceded by clear_items any more (C07_PRECAUTION=1
+        brings the old behaviour back, to run the check against an older tree)"""
+        if os.environ.get("C07_PRECAUTION") != "1":
             return
         self.precautions += 1
         for p in self.param_spaces():
@@ -524,8 +526,8 @@ class Gen:
         nd = rng.choice(self.defs)
         p = nd["path"]
         paths = [n["path"] for n in self.defs]
-        if (kind == "setparams" and self.risky(p)) \
-                and rng.random() < 0.65:      # mostly steer away from the D38 trigger
+        if (kind == "setparams" and self.risky(p)) and os.environ.get("C07_PRECAUTION") == "1" \
+                and rng.random() < 0.65:      # (older trees only) mostly steer away from the D38 trigger
             safe = [n for n in self.defs if not self.risky(n["path"])]
             if safe and kind != "delspace" and rng.random() < 0.6:
                 nd = rng.choice(safe); p = nd["path"]
